@@ -61,7 +61,7 @@ def oracle(case, out):
         o = out[i]
         if o == "skipped" or o.startswith("panic") or o == "bad-op":
             break
-        if o == "busy" or op.startswith("protocols "):
+        if o == "busy" or op.startswith("protocols ") or M.is_aux(op):
             continue
         obs = parse_obs(o)
         if obs is None:
@@ -69,6 +69,14 @@ def oracle(case, out):
         prev = g.prev
         t = op.split()
         live_before = {c: set(s) for c, s in g.live.items()}
+        if obs["res"].startswith("idclash:"):
+            # the transport allocated (TransportHandle::next_connection_id) an id that already names a connection
+            old, _, new = obs["res"][len("idclash:"):].partition("=")
+            if old in g.live or old in g.owed:
+                what = "open connection" if old in g.live else "dial in flight"
+                v("id-reuse", f"connection {new} was given the connection id of the {what} {old}: the limit "
+                  f"accounting (a set of ids) counts the two as one and closing one releases the other's slot", i)
+                break
         g.update(i, op, obs)
         if g.clash:
             break          # a duplicated `as=` label: connection identities are ambiguous from here on
@@ -118,6 +126,26 @@ def oracle(case, out):
 
 def matches_known(k, v):
     return False
+
+
+# ---------------------------------------------------------------- the real connection end (engine: extra_cases)
+# The manager releases a slot when the connection's ProtocolSet tells it `ConnectionClosed`
+# (ProtocolSet::report_connection_closed, called by the connection task on every exit path). The `tcploop` area drives
+# the REAL TcpConnection loop with a real ProtocolSet whose manager channel the adapter reads; here its cases (focus:
+# protocols that shut down before the connection ends) are judged by `tcploop.oracle_c06`.
+def extra_cases(rng, tier):
+    from . import tcploop
+    yield "TCPLOOP", tcploop.gen_cases(rng, tier, focus="C06")
+
+
+def oracle_extra(xpid, case, out):
+    from . import tcploop
+    return [dict(v, msg="(real TcpConnection loop + ProtocolSet, tcploop area) " + v["msg"]) for v in tcploop.oracle_c06(case, out)]
+
+
+def stats_extra(xpid, case, out, acc):
+    from . import tcploop
+    tcploop.stats(case, out, acc)
 
 
 # ---------------------------------------------------------------- real nodes through the public API (engine: extra_cases)
